@@ -40,6 +40,9 @@ type c13Case struct {
 	// connection may do while no password is required, it has not presented the
 	// new one afterwards.
 	Reconf bool `json:"reconfigure_password,omitempty"`
+	// Program (kind "runtime"): a program of the C08 runtime explorer judged for this property:
+	// a connection's authorization changes through its own AUTH only
+	Program []string `json:"program,omitempty"`
 }
 
 // c13Model is the per-client model of connection-scoped state.
@@ -414,8 +417,44 @@ func c13State(c *fw.Ctx) {
 	}
 }
 
+// c13Runtime: the authorization of a connection is its own - whatever OTHER connections and
+// the application do to the required password (programs of c08runtime.go that involve
+// several connections), it changes through the connection's own AUTH only.
+func c13Runtime(c *fw.Ctx) {
+	for i, prog := range c08Programs {
+		multi := false
+		for _, st := range prog {
+			if strings.HasPrefix(st, "new:1") {
+				multi = true
+			}
+		}
+		if !multi || !c.Mine() {
+			continue
+		}
+		b := 1
+		if c08Concurrent(prog) {
+			b = 2
+		}
+		x := c08RuntimeExplorer(prog, b)
+		x.Expired = c.Expired
+		name := fmt.Sprintf("runtime-program-%d", i)
+		x.OnExec = func(choices []int, r *vrt.Result, v sched.Verdict) {
+			c.Eval()
+			if strings.HasPrefix(v.Obs, "HARNESS-PANIC") {
+				c.HarnessError("C13 %s %s", name, v.Obs)
+			}
+			if v.Clause != "" {
+				c.Violation("C13|runtime|"+v.Clause, v.Detail+fmt.Sprintf(" schedule=%v", choices), c13Case{Kind: "runtime", Program: prog, Choices: choices})
+			}
+		}
+		x.Explore()
+		schedAccount(c, x, name)
+	}
+}
+
 func c13Run(c *fw.Ctx) {
 	c13State(c)
+	c13Runtime(c)
 	bound := 2
 	nScripts := len(c13ScriptSet(0))
 	for _, password := range []bool{false, true} {
@@ -574,6 +613,15 @@ func c13Replay(raw json.RawMessage) (string, bool, error) {
 	var cs c13Case
 	if err := json.Unmarshal(raw, &cs); err != nil {
 		return "", false, err
+	}
+	if cs.Kind == "runtime" {
+		run := c08RuntimeExplorer(cs.Program, 0).New()
+		r := vrt.Run(vrt.Options{Choices: cs.Choices}, run.Body, run.AtQuiet)
+		if r.Diverged != "" {
+			return "", false, fmt.Errorf("schedule does not replay: %s", r.Diverged)
+		}
+		v := run.Verdict(r)
+		return fmt.Sprintf("program=%v schedule=%v clause=%q %s", cs.Program, cs.Choices, v.Clause, v.Detail), v.Clause != "", nil
 	}
 	if cs.Kind == "state" {
 		st, clause, detail := c13StateProbe(cs.History, cs.Password, cs.TLS)
